@@ -60,6 +60,7 @@ var (
 	fStoNet      = simrt.RegisterCounter("fault_storage_homenetid_error")
 	fStoSlow     = simrt.RegisterCounter("fault_storage_slow")
 	fNonce       = simrt.RegisterCounter("fault_joinnonce_overflow")
+	fNonceEdge   = simrt.RegisterCounter("fault_joinnonce_counter_near_its_24bit_end")
 	fKEKLen      = simrt.RegisterCounter("fault_kek_invalid_length")
 	fUnknown     = simrt.RegisterCounter("fault_unknown_deveui")
 	fBadMIC      = simrt.RegisterCounter("fault_radio_corrupted_mic")
@@ -207,6 +208,9 @@ func (w *world) getDeviceKeys(devEUI lorawan.EUI64) (joinserver.DeviceKeys, erro
 	n := nextNonce(rec.idx)
 	if c.overflow {
 		n = 1<<24 + n
+	}
+	if n >= 1<<24 {
+		c.overflow = true // the counter ran over by itself
 	}
 	c.gotKeys = true
 	c.nonce = n
@@ -417,6 +421,15 @@ func build(sw *sim.World) {
 			rec.known = false
 		}
 		setNonce(i, r.Intn(1<<20))
+		switch r.Intn(10) {
+		case 0:
+			// a long-lived device: the counter reaches the largest legal
+			// JoinNonce (and then runs over) within this history
+			setNonce(i, 1<<24-2-r.Intn(4))
+			simrt.Count(fNonceEdge)
+		case 1:
+			setNonce(i, -1+r.Intn(2)) // first nonces 0 / 1
+		}
 		rec.gens = []spec.Device{rec.dev}
 		for g := 1; g < 3; g++ {
 			d := rec.dev
